@@ -67,9 +67,6 @@ ConvClauses(c) ==
             (* two different constants / parameters never share one new parameter *)
        \cup (IF \E i, j \in 1..n : c.cat[i] = "par" /\ c.labels[i] = c.labels[j] /\ c.plain[i] # c.plain[j]
              THEN {"replacement_keeps_constants_apart"} ELSE {})
-            (* one parameter of the formula stays one parameter *)
-       \cup (IF \E i, j \in 1..n : c.pcat[i] = "par" /\ c.plain[i] = c.plain[j] /\ c.labels[i] # c.labels[j]
-             THEN {"replacement_keeps_parameter_identity"} ELSE {})
         ELSE {})
 
 (* not a clause of C18 as bound here (DESIGN.md 7 rule 1), only reported: a number somewhere inside an
@@ -78,6 +75,12 @@ Noted(c) ==
   IF c.kind = "conv" /\ c.rf /\ Len(c.plain) = Len(c.labels) /\ WellFormed(c)
      /\ \E j \in F!InsideExp(c.plain, c.ar) \ F!ExpPos(c.plain, c.ar) : c.pcat[j] = "num" /\ j \in Replaced(c)
   THEN {"number_inside_exponent_subtree_replaced"} ELSE {}
+(* likewise only reported: under replacement every parameter position gets its own new name, so a parameter
+   that occurs twice becomes two parameters (the property speaks of numeric constants, not of this) *)
+NotedSplit(c) ==
+  IF c.kind = "conv" /\ c.rf /\ Len(c.plain) = Len(c.labels)
+     /\ \E i, j \in 1..Len(c.labels) : c.pcat[i] = "par" /\ c.plain[i] = c.plain[j] /\ c.labels[i] # c.labels[j]
+  THEN {"repeated_parameter_split_by_replacement"} ELSE {}
 
 CountClauses(c) == IF c.complexity # c.n THEN {"complexity_is_length"} ELSE {}
 
@@ -85,7 +88,7 @@ Clauses(c) == CASE c.kind = "conv"  -> ConvClauses(c)
                 [] c.kind = "count" -> CountClauses(c)
                 [] OTHER            -> {"unknown_kind"}
 
-Verdict == LET c == Cases[ji] v == Clauses(c) w == Noted(c) IN
+Verdict == LET c == Cases[ji] v == Clauses(c) w == Noted(c) \cup NotedSplit(c) IN
              /\ (v = {} \/ PrintT(ToJson([id |-> c.id, failed |-> v])))
              /\ (w = {} \/ PrintT(ToJson([id |-> c.id, noted |-> w])))
 Counted == (ji = Len(Cases)) => PrintT(ToJson([judged |-> ji]))
